@@ -5,6 +5,7 @@ package vh
 import (
 	"fmt"
 	"strings"
+	"time"
 )
 
 func init() { registry["C12"] = &propDef{e1: c12Scenarios} }
@@ -122,6 +123,26 @@ func c12Scenarios(tier string) []*Scenario {
 				}
 				sc3.Check = func(w *World) []Violation { return c12Check(w, deps) }
 				scs = append(scs, sc3)
+				// variant: the leaf dependent fails once and is in its restart back-off when somebody asks to start it;
+				// the shutdown begins after the back-off, when its command (its commands, if the start was served)
+				// is up again
+				nodes5 := append([]GNode{}, nodes...)
+				nodes5[n-1].Restart = "always"
+				yaml5, procs5, _ := buildGraph(nodes5, nil)
+				yaml5 = strings.Replace(yaml5, "      restart: \"always\"\n", "      restart: \"always\"\n      backoff_seconds: 5\n", 1)
+				procs5[leaf] = &ProcScript{Launches: [][]Action{{Exit(1)}, {}}}
+				inBackoff := func(w *World) bool {
+					return w.launches[leafKey] == 1 && w.lastStat[leaf] == "Restarting" && othersUp(w)
+				}
+				afterBackoff := func(w *World) bool { return w.launches[leafKey] >= 2 && w.now() >= 6*time.Second && allUpAtLeast(w, n) }
+				sc5 := &Scenario{
+					ID:   fmt.Sprintf("c12-%s-start-in-backoff[%s]", sh.id, leaf),
+					YAML: yaml5, Procs: procs5, K: 1, Ordered: true, TickBudget: 2,
+					API:      [][]APICall{{{Op: "start", Name: leaf, When: inBackoff}, {Op: "shutdown", When: afterBackoff}}},
+					MapSites: sc.MapSites,
+				}
+				sc5.Check = func(w *World) []Violation { return c12Check(w, deps) }
+				scs = append(scs, sc5)
 			}
 		}
 	}
@@ -227,6 +248,17 @@ func bitsSet(x int) int {
 	return n
 }
 
+// allUpAtLeast: at least n commands are alive.
+func allUpAtLeast(w *World, n int) bool {
+	alive := 0
+	for _, f := range w.procs {
+		if f.Alive() {
+			alive++
+		}
+	}
+	return alive >= n
+}
+
 func c12Check(w *World, deps map[string][]string) []Violation {
 	var vs []Violation
 	tr := w.pre()
@@ -248,7 +280,13 @@ func c12Check(w *World, deps map[string][]string) []Violation {
 			x := baseOf(e.Proc)
 			for y, ds := range deps {
 				for _, d := range ds {
-					if d == x && aliveAtReq[y] && !exited[y] {
+					stillAlive := false
+					for _, k := range e.Alive {
+						if baseOf(k) == y {
+							stillAlive = true // (a second command of y may be alive although one has exited)
+						}
+					}
+					if d == x && aliveAtReq[y] && (!exited[y] || stillAlive) {
 						vs = append(vs, viol("C12", "stopped-before-dependent", "%s received signal %d while its dependent %s (running when the shutdown began) was still alive", x, e.Sig, y))
 					}
 				}
